@@ -26,6 +26,9 @@ fn one_round(backend: &str, i: u64, rng: &mut Rng, out: &mut Outcome, dir: &std:
     let snapshotters = rng.range(1, 3);
     let claim_threads = *rng.pick(&[2usize, 3, 4, 6, 8]);
     let claim_rounds = rng.range(40, 120);
+    let mut races = 0u64;
+    let mut op_races = 0u64;
+    let mut op_race_kinds: std::collections::BTreeSet<String> = Default::default();
     let (rep, cut, claims) = match backend {
         "memory" => {
             let s = MdkMemoryStorage::default();
@@ -38,6 +41,15 @@ fn one_round(backend: &str, i: u64, rng: &mut Rng, out: &mut Outcome, dir: &std:
             let rr = run_rollback_readers(&s4, &u, rng.range(100, 400), rng.range(2, 5), seed);
             k.violations.extend(rr.violations);
             k.reads += rr.reads;
+            let s6 = MdkMemoryStorage::default();
+            let orc = run_op_races(&s6, &u, rng.range(40, 100), seed);
+            k.violations.extend(orc.violations);
+            op_races = orc.histories_ops;
+            op_race_kinds = orc.keys;
+            let s5 = MdkMemoryStorage::default();
+            let rc = run_rollback_races(&s5, &u, *rng.pick(&[2usize, 3, 4, 8]), rng.range(20, 60), seed);
+            k.violations.extend(rc.violations);
+            races = rc.histories_ops;
             (r, c, k)
         }
         _ => {
@@ -58,6 +70,29 @@ fn one_round(backend: &str, i: u64, rng: &mut Rng, out: &mut Outcome, dir: &std:
             k.violations.extend(rr.violations);
             k.reads += rr.reads;
             drop(s4);
+            {
+                let p6 = sub.join(format!("c19-{i}-opraces.db"));
+                let s6 = MdkSqliteStorage::new_unencrypted(&p6).expect("open");
+                let orc = run_op_races(&s6, &u, rng.range(20, 50), seed);
+                k.violations.extend(orc.violations);
+                op_races = orc.histories_ops;
+                op_race_kinds = orc.keys;
+                drop(s6);
+                for suf in ["", "-journal", "-wal", "-shm"] {
+                    let _ = std::fs::remove_file(format!("{}{}", p6.display(), suf));
+                }
+            }
+            {
+                let p5 = sub.join(format!("c19-{i}-races.db"));
+                let s5 = MdkSqliteStorage::new_unencrypted(&p5).expect("open");
+                let rc = run_rollback_races(&s5, &u, *rng.pick(&[2usize, 3, 4, 8]), rng.range(10, 30), seed);
+                k.violations.extend(rc.violations);
+                races = rc.histories_ops;
+                drop(s5);
+                for suf in ["", "-journal", "-wal", "-shm"] {
+                    let _ = std::fs::remove_file(format!("{}{}", p5.display(), suf));
+                }
+            }
             for suf in ["", "-journal", "-wal", "-shm"] {
                 let _ = std::fs::remove_file(format!("{}{}", p4.display(), suf));
             }
@@ -72,6 +107,17 @@ fn one_round(backend: &str, i: u64, rng: &mut Rng, out: &mut Outcome, dir: &std:
             (r, c, k)
         }
     };
+    out.add("calls_racing_on_one_snapshot", races);
+    out.add("operations_released_together_and_checked_against_the_model", op_races);
+    for kk in op_race_kinds {
+        if let Some(r) = kk.strip_prefix("race:") {
+            out.note("operation_sets_raced", r.to_string());
+        } else if kk == "candidate-set-overflow" {
+            out.count("op_race_runs_ended_by_candidate_overflow");
+        } else {
+            out.info.push(format!("run_op_races stopped early: {kk}"));
+        }
+    }
     out.add("claim_rounds_concurrent_save_group", claims.histories_ops);
     out.add("reads_during_concurrent_snapshot_rollback", claims.reads);
     out.evaluations += 1;
@@ -266,6 +312,34 @@ fn rounds_pass(ctx: &Ctx, n: u64) -> Outcome {
     }
     let _ = std::fs::remove_dir_all(&tmp);
     out
+}
+
+/// `vcheck C19-opraces <memory|sqlite> <instances> <trials>`: the generic race engine alone (debug aid).
+pub fn opraces_debug(ctx: &Ctx, rest: &[String]) -> i32 {
+    let backend = rest.first().cloned().unwrap_or_else(|| "memory".into());
+    let n: u64 = rest.get(1).and_then(|s| s.parse().ok()).unwrap_or(50);
+    let trials: usize = rest.get(2).and_then(|s| s.parse().ok()).unwrap_or(150);
+    let dir = ctx.scratch_dir("c19-opraces");
+    let mut bad = 0;
+    for i in 0..n {
+        let mut rng = Rng::for_scenario(ctx.seed, "C19-opraces", i);
+        let u = Universe::new(rng.next());
+        let seed = rng.next();
+        let rep = if backend == "memory" {
+            run_op_races(&MdkMemoryStorage::default(), &u, trials, seed)
+        } else {
+            let p = dir.join(format!("o{i}.db"));
+            let s = MdkSqliteStorage::new_unencrypted(&p).expect("open");
+            run_op_races(&s, &u, trials, seed)
+        };
+        for (c, d) in &rep.violations {
+            bad += 1;
+            println!("OPRACE-VIOLATION instance {i}: {c} :: {d}\n");
+        }
+    }
+    let _ = std::fs::remove_dir_all(&dir);
+    println!("OPRACES-DONE backend={backend} instances={n} violations={bad}");
+    0
 }
 
 fn harness_dir(ctx: &Ctx) -> PathBuf {
@@ -464,6 +538,9 @@ pub fn run(ctx: &Ctx) -> i32 {
         Floor { what: "histories (sqlite)", have: out.get("histories_sqlite"), need: 100 },
         Floor { what: "reads matched to the write they observed", have: out.get("reads_matched_to_writes"), need: 20_000 },
         Floor { what: "reads that overlapped their write (real concurrency observed)", have: out.get("reads_overlapping_their_write"), need: 200 },
+        Floor { what: "operations released together and checked against the model", have: out.get("operations_released_together_and_checked_against_the_model"), need: 20_000 },
+        Floor { what: "distinct operation sets raced", have: out.sets.get("operation_sets_raced").map(|s| s.len()).unwrap_or(0) as u64, need: 150 },
+        Floor { what: "rollback / re-take calls racing on one snapshot", have: out.get("calls_racing_on_one_snapshot"), need: 5000 },
         Floor { what: "snapshots taken under load and restored", have: out.get("snapshots_taken_under_load_and_restored"), need: 500 },
         Floor { what: "operations executed under ThreadSanitizer", have: out.get("tsan_operations"), need: 2000 },
         Floor { what: "clean Miri runs", have: out.get("miri_runs_clean"), need: 2 },
@@ -471,7 +548,7 @@ pub fn run(ctx: &Ctx) -> i32 {
     finish(
         ctx,
         "exploration",
-        "(a) 2-16 threads share one storage instance (memory, SQLite file) over few keys (2 shared groups + 1 group private to thread 0, 2 epochs, 2 wrapper ids); every written value embeds (thread, counter) in a field that round-trips (group name, secret bytes, relay URL path, failure reason), call/return stamps come from one global atomic counter at the client boundary; per key the history is decided by the complete test for registers with unique writes (Gibbons-Korach zones: no read before its write, no two values each observed throughout overlapping spans, no value confined inside another value's span), preceded by specific necessary conditions that give readable witnesses (value was written, not overwritten entirely before the read began, sequential reads monotonic), plus: relay listings never mix two replaces, the private group only ever shows thread 0's tags, no call fails or panics, no stall (all workers blocked without CPU for 15 s); a writer bumps epoch -> secret -> relays through versions while snapshotters take snapshots that are restored afterwards and must be a consistent cut. SQLite runs with tick-hook yields between critical sections. (b) the same workload in a -Zsanitizer=thread -Zbuild-std build, reports counted from the log, a report with an mdk_* frame is a violation. (c) cargo miri run of the memory-backend subset (single-threaded model differential, 3-thread stress, snapshot cut) with several seeds. distinct = histories in which at least one read overlapped the write it observed",
+        "(a) 2-16 threads share one storage instance (memory, SQLite file) over few keys (2 shared groups + 1 group private to thread 0, 2 epochs, 2 wrapper ids); every written value embeds (thread, counter) in a field that round-trips (group name, secret bytes, relay URL path, failure reason), call/return stamps come from one global atomic counter at the client boundary; per key the history is decided by the complete test for registers with unique writes (Gibbons-Korach zones: no read before its write, no two values each observed throughout overlapping spans, no value confined inside another value's span), preceded by specific necessary conditions that give readable witnesses (value was written, not overwritten entirely before the read began, sequential reads monotonic), plus: relay listings never mix two replaces, the private group only ever shows thread 0's tags, no call fails or panics, no stall (all workers blocked without CPU for 15 s); a writer bumps epoch -> secret -> relays through versions while snapshotters take snapshots that are restored afterwards and must be a consistent cut; 2-8 threads roll back to one snapshot at the same instant (exactly one may succeed) and a rollback races with a re-take of the same snapshot name (the end state must be that of one of the two orders); ANY two or three operations of the storage operation language (mdk traits + OpenMLS storage provider, snapshots included) are released together after a random prefix, and results + complete read-out must equal what some order of them gives on the executable reference model. SQLite runs with tick-hook yields between critical sections. (b) the same workload in a -Zsanitizer=thread -Zbuild-std build, reports counted from the log, a report with an mdk_* frame is a violation. (c) cargo miri run of the memory-backend subset (single-threaded model differential, 3-thread stress, snapshot cut) with several seeds. distinct = histories in which at least one read overlapped the write it observed",
         out,
         floors,
         vec![
